@@ -2,13 +2,14 @@ from lanes import *  # noqa
 
 PROP = {
         "level": "exploration",
-        "level_text": "Seeded exploration with a reference model as oracle: 10^6 (quick) to 10^7 (thorough) SpanGuard programs - any order and multiplicity of with_mdl / with_name / with_props / map_props / with_completion / start / complete / complete_with / drop on a guard with type-erased parameters, enabled or disabled by a filter, inside or outside its frame, under a clock that advances, goes backwards or is unavailable between any two operations - each checked for the number of completions per completion object, the returned bools, is_enabled and the content of the completed span; plus every hand-written macro form (span attribute on sync / async fns, level-specific attributes, guard:, ok_lvl / err_lvl / err / panic_lvl, new_span!) x every exit path (fall-through, early return, Err, ?, caught panic) x enabled / disabled, checked for exactly one span event with the lvl / err the exit path calls for. Held-on-what-was-observed over the generated programs, not a proof over all programs.",
+        "level_text": "Seeded exploration with a reference model as oracle: 10^6 (quick) to 10^7 (thorough) SpanGuard programs - any order and multiplicity of with_mdl / with_name / with_props / map_props / with_completion / start / complete / complete_with / drop on a guard with type-erased parameters, enabled or disabled by a filter, inside or outside its frame, under a clock that advances, goes backwards or is unavailable between any two operations - each checked for the number of completions per completion object, the returned bools, is_enabled and the content of the completed span; plus every hand-written macro form (span attribute on sync / async fns, level-specific attributes, guard:, ok_lvl / err_lvl / err / panic_lvl, new_span!) x every exit path (fall-through, early return, Err, ?, caught panic) x enabled / disabled, checked for exactly one span event with the lvl / err the exit path calls for; plus 24 macro sites (Result-aware ok_lvl / err_lvl / err shapes on #[span] and the level-named attributes, sync / async, with plain and guard: forms as controls) x every exit path x filters that accept the span at its start and would reject the completed span's event if asked again (the real level::min_filter at every level as runtime filter or as when:, a stateful budget filter that says yes k = 0, 1, 2 times, a when: filter over a runtime filter that rejects) x a generic Runtime and the type-erased runtime of an AmbientSlot, checked for exactly one span event iff the deciding filter accepted the span at its START level. Held-on-what-was-observed over the generated programs, not a proof over all programs.",
         "level_note": "Trusts the sequential guard model and the lvl/err table in harness/mon/src/bin/c05.rs (the table follows the documented control parameters: panic => panic_lvl or error + err; Err => err_lvl, else the attribute's level, else error; Ok => ok_lvl, else the attribute's level). Attributes on block expressions need nightly features and are only exercised in the Miri lane.",
         "technique": "runtime monitoring: completion counting per guard / invocation against a sequential model; hand-written macro forms x exit paths; Miri lane (tiny) that also builds the block forms",
         "assumptions": [
             "when the clock gives no reading at start or at completion the statement does not fix the extent; for SpanGuard programs and completions that go through completion::Default / Timer::extent (documented: None without a reading) an extent, if present, must be the range of two readings that exist; the Result-aware completions (ok_lvl / err_lvl / err) are only counted there (they emit a point extent from a third reading on the pinned tree)",
             "ids on the span event are only required when it is completed inside its frame by the real default completion",
             "user props that collide with the span's own keys (evt_kind, span_name) are not generated",
+            "whether a span is enabled is decided once, by the first answer of the deciding filter (the call-site when: filter if there is one - C01: it replaces the runtime's -, else the runtime's filter) to the span shown at the level of its attribute (unleveled = the documented default, info, for MinLevelFilter); the completion - default, panic, cancellation, Ok and Err alike - is not subject to a filter again; how often a filter is asked is counted, not judged",
         ],
         "lanes": [
             native("c05"),
